@@ -204,6 +204,8 @@ def check(case, rec=None):
     from ImageD11.sinograms import point_by_point as pbp
     index, mseed = case["index"], case["mseed"]
     p, sc, fc, om = params_from(index, mseed)
+    given = (sc, fc, om, dict(p))
+    snapshot = (sc.copy(), fc.copy(), om.copy())
     t = (p["t_x"], p["t_y"], p["t_z"])
     ref = O.geo_forward(sc, fc, om, p, t)
     c = Cmp(p, ref)
@@ -468,6 +470,12 @@ def check(case, rec=None):
             c.fails += cl.fails
         else:
             c.fails.append(exc_failure("PixelLUT", lut))
+    # ---- none of the routes may have written into the arrays or the parameter dictionary it was given
+    for nm, a, b in zip(("sc", "fc", "omega"), given[:3], snapshot):
+        if not np.array_equal(a, b):
+            c.fails.append(fail("inputs", "one of the routes modified the %s array it was given" % nm, what="inputs"))
+    if given[3] != p or pk != p:
+        c.fails.append(fail("inputs", "one of the routes modified the parameter dictionary it was given", what="inputs"))
     if rec is not None:
         cls = ["omegasign-1"] if (index >> 8) & 1 else []
         if ((index >> 11) & 7) >= 4:
